@@ -566,7 +566,8 @@ class Machine:
     def _time_pattern(self) -> None:
         inst = self.current_inst
         if inst.param0 == SetOp.INIT:
-            self._reg.time = inst.param1
+            # A copy, because a following union must not alter the program.
+            self._reg.time = inst.param1.copy()
         else:
             self._reg.time.union(inst.param1)
 
